@@ -11,3 +11,20 @@ pub uninterp spec fn f64_min(a: f64, b: f64) -> f64;
 pub assume_specification [f64::abs] (a: f64) -> (r: f64) ensures r == f64_abs(a);
 pub assume_specification [f64::max] (a: f64, b: f64) -> (r: f64) ensures r == f64_max(a, b);
 pub assume_specification [f64::min] (a: f64, b: f64) -> (r: f64) ensures r == f64_min(a, b);
+// rounding intrinsics and the saturating float->int `as` cast (trusted, uninterpreted: direction/ties are NOT proved,
+// only that the filter applies exactly this intrinsic followed by exactly this cast)
+pub uninterp spec fn f64_floor(a: f64) -> f64;
+pub uninterp spec fn f64_ceil(a: f64) -> f64;
+pub uninterp spec fn f64_round(a: f64) -> f64;
+pub uninterp spec fn f64_powi(a: f64, n: i32) -> f64;
+pub uninterp spec fn f64_to_i64(a: f64) -> i64;
+pub assume_specification [f64::floor] (a: f64) -> (r: f64) ensures r == f64_floor(a);
+pub assume_specification [f64::ceil] (a: f64) -> (r: f64) ensures r == f64_ceil(a);
+pub assume_specification [f64::round] (a: f64) -> (r: f64) ensures r == f64_round(a);
+pub assume_specification [f64::powi] (a: f64, n: i32) -> (r: f64) ensures r == f64_powi(a, n);
+/// stand-in for `x as i64` on a float (Verus leaves the float->int cast unspecified); spliced in by an extraction edit
+pub trait SatCast { fn sat_i64(self) -> i64; }
+impl SatCast for f64 {
+    #[verifier::external_body]
+    fn sat_i64(self) -> (r: i64) ensures r == f64_to_i64(self) { self as i64 }
+}
